@@ -6,6 +6,14 @@
 From Common Require Import Prelude.
 Local Open Scope N_scope.
 
+(* Values are codes with an IDENTITY (the code itself: the bit pattern / all fields) and an equality class
+   under the value type's operator== (val_class).  Distinct codes may be ==-equal: +0.0f / -0.0f, the
+   {key, shadow} struct with key-only == (codes v and v + 50), and a NaN is not even == to itself.  The
+   containers store and return IDENTITIES; no member of FlatMap / ParameterizedObject consults == on values.
+   val_class is the harness's encoding of the struct domain (key = v mod 50, shadow = v / 50). *)
+Definition val_class (v : N) : N := v mod 50.
+Definition val_eq (a b : N) : bool := N.eqb (val_class a) (val_class b).
+
 (* ---------------------------------------------------------------- FlatMap *)
 Definition fm := list (N * N).          (* std::vector<std::pair<KEY,VALUE>> *)
 
@@ -118,7 +126,7 @@ Inductive po_op :=
    a fixed table of C++/Any semantics, not measured: Any's by-value template assignment stores the DECAYED
    type, its copy assignment stores the payload of the Any it is given (nothing for an empty one), and
    nothing is promoted.  Stored-type tags (the T of getParam<T>): 0 int, 1 float, 2 std::string, 3 vec3f,
-   4 const char*, 5 short, 6 an enum. *)
+   4 const char*, 5 short, 6 an enum, 7 the {key, shadow} struct. *)
 Definition store_of (form v : N) : option (N * N) :=
   match form with
   | 4 => Some (4, v)        (* string literal, static type const char[N] (several N)  -> const char*  *)
@@ -130,6 +138,7 @@ Definition store_of (form v : N) : option (N * N) :=
   | 10 => None              (* empty utility::Any                                     -> data emptied *)
   | 11 => Some (5, v)       (* short: stays short (no promotion to int)                               *)
   | 12 => Some (6, v)       (* enum: stays that enum                                                  *)
+  | 13 => Some (7, v)       (* a {key, shadow} struct whose operator== looks at key only: stored as itself *)
   | _ => Some (form, v)     (* 0 int, 1 float, 2 std::string, 3 vec3f: stored as themselves           *)
   end.
 
